@@ -5,7 +5,8 @@ The decoder has no `cfg`-dependent semantics (the translator lists every `cfg(fe
 sources and the check compares the list with the reviewed one: imports, `SystemTime` fields and `prune`
 only). The tracker differs in exactly three places: `AirplaneState::last_time`, `AirplaneCoor::last_time`
 and `prune`. The model carries the configuration as the flag `std`; the theorems show that nothing but
-the time stamps depends on it (partial: the lift to whole histories is checked by running both builds). -/
+the time stamps depends on it: per step (`update_core` … `added_std_independent`) and, by induction over histories,
+for whole runs (`run_erase`, `builds_agree`, `records_agree`). -/
 
 namespace Adsb.C20
 open Adsb Adsb.C12 Adsb.C13 Adsb.C14
@@ -74,5 +75,234 @@ theorem added_std_independent (g : Geo P D) (now now' : Nat) (s : Airplanes P D)
     rw [action_tracked _ _ _ _ _ k me hk, action_tracked _ _ _ _ _ k me hk]
     unfold entryOrInsert
     cases s.get k <;> rfl
+
+/-- forget what only the std build has: the time stamps -/
+def eraseC (c : Coor P D) : Coor P D := { c with lastTime := none }
+def eraseP (p : Plane P D) : Plane P D :=
+  { p with coords := eraseC p.coords, lastTime := 0, track := p.track.map (fun t => t.map eraseC) }
+def eraseS (s : Airplanes P D) : Airplanes P D := s.map (fun kv => (kv.1, eraseP kv.2))
+
+theorem get_eraseS (s : Airplanes P D) (k : Nat) : (eraseS s).get k = (s.get k).map eraseP := by
+  induction s with
+  | nil => rfl
+  | cons kv rest ih =>
+    obtain ⟨k', v⟩ := kv
+    simp only [eraseS, List.map_cons, Airplanes.get] at ih ⊢
+    split
+    · rfl
+    · exact ih
+
+theorem put_eraseS (s : Airplanes P D) (k : Nat) (v : Plane P D) : eraseS (s.put k v) = (eraseS s).put k (eraseP v) := by
+  induction s with
+  | nil => rfl
+  | cons kv rest ih =>
+    obtain ⟨k', v'⟩ := kv
+    simp only [eraseS, List.map_cons, Airplanes.put] at ih ⊢
+    split
+    · rfl
+    · split
+      · rfl
+      · simp only [List.map_cons]; rw [ih]
+
+theorem update_erase (g : Geo P D) (std std' : Bool) (now now' : Nat) (c : Coor P D) :
+    (Coor.update g std now c).map eraseC = (Coor.update g std' now' (eraseC c)).map eraseC := by
+  obtain ⟨e, o, pos, lt, kd⟩ := c
+  unfold Coor.update eraseC
+  cases e <;> cases o <;> simp only [Option.map]
+  rename_i e o
+  cases g.getPos e o with
+  | none => rfl
+  | some p =>
+    simp only
+    by_cases h1 : g.outOfRange (g.rxDist p) = true
+    · simp [h1]
+    · cases pos with
+      | none => simp [h1]
+      | some cur =>
+        by_cases h2 : g.jump (g.dist cur p) = true
+        · simp [h1, h2]
+        · simp [h1, h2]
+
+theorem same_erase (g : Geo P D) (a b : Coor P D) : Coor.same g (eraseC a) (eraseC b) = Coor.same g a b := rfl
+
+theorem eraseC_idem (c : Coor P D) : eraseC (eraseC c) = eraseC c := rfl
+
+theorem updatePosition_erase (g : Geo P D) (std std' : Bool) (now now' : Nat) (st : Plane P D) (a : Alt) :
+    eraseP (updatePosition g std now st a) = eraseP (updatePosition g std' now' (eraseP st) a) := by
+  unfold updatePosition
+  -- the candidate record of the erased state is the erased candidate
+  have htemp : ∀ st : Plane P D, (if a.f = 0 then { (eraseP st).coords with even := some a } else { (eraseP st).coords with odd := some a } : Coor P D)
+      = eraseC (if a.f = 0 then { st.coords with even := some a } else { st.coords with odd := some a }) := by
+    intro st; split <;> rfl
+  simp only [htemp st]
+  generalize (if a.f = 0 then { st.coords with even := some a } else { st.coords with odd := some a } : Coor P D) = temp
+  have hu := update_erase g std std' now now' temp
+  cases h1 : Coor.update g std now temp with
+  | none =>
+    rw [h1] at hu
+    cases h2 : Coor.update g std' now' (eraseC temp) with
+    | none =>
+      simp only
+      unfold eraseP eraseC
+      simp only [Option.isSome_map]
+      cases hp : st.coords.pos <;> cases ht : st.track <;> simp [hp, ht, List.map_append]
+    | some t => rw [h2] at hu; cases hu
+  | some t =>
+    rw [h1] at hu
+    cases h2 : Coor.update g std' now' (eraseC temp) with
+    | none => rw [h2] at hu; cases hu
+    | some t' =>
+      rw [h2] at hu
+      simp only [Option.map_some, Option.some.injEq] at hu
+      simp only
+      have hs : Coor.same g (eraseP st).coords t' = Coor.same g st.coords t := by
+        have e1 : Coor.same g (eraseP st).coords t' = Coor.same g (eraseC st.coords) (eraseC t') := rfl
+        rw [e1, ← hu]; rfl
+      rw [hs]
+      split
+      · unfold eraseP eraseC; cases ht : st.track <;> simp [ht]
+      · unfold eraseP; simp only
+        have hq : t.even = t'.even ∧ t.odd = t'.odd ∧ t.pos = t'.pos ∧ t.kd = t'.kd := by
+          have := hu; simp only [eraseC, Coor.mk.injEq] at this; exact ⟨this.1, this.2.1, this.2.2.1, this.2.2.2.2⟩
+        cases ht : st.track <;> simp [ht, List.map_append, eraseC, hq]
+
+theorem eraseP_bump (p q : Plane P D) (h : eraseP p = eraseP q) (n n' : Nat) :
+    eraseP { p with numMessages := p.numMessages + 1, lastTime := n } = eraseP { q with numMessages := q.numMessages + 1, lastTime := n' } := by
+  simp only [eraseP, Plane.mk.injEq] at h ⊢
+  exact ⟨h.1, h.2.1, h.2.2.1, by rw [h.2.2.2.1], trivial, h.2.2.2.2.2⟩
+
+/-- the payload part of a step (before the message count and the time stamp are updated) -/
+def payload (g : Geo P D) (std : Bool) (now : Nat) (st : Plane P D) (me : ME) : Plane P D :=
+  match me with
+  | .ident i => { st with callsign := some i.cn }
+  | .velocity v => (match v.calc with
+      | some r => { st with vel := some r }
+      | none => st)
+  | .airPosBaro a => updatePosition g std now st a
+  | .airPosGnss a => updatePosition g std now st a
+  | _ => st
+
+theorem stepPlane_eq (g : Geo P D) (std : Bool) (now : Nat) (st : Plane P D) (me : ME) :
+    stepPlane g std now st me = { payload g std now st me with
+      numMessages := (payload g std now st me).numMessages + 1,
+      lastTime := (if std then now else (payload g std now st me).lastTime) } := rfl
+
+theorem payload_erase (g : Geo P D) (std std' : Bool) (now now' : Nat) (st : Plane P D) (me : ME) :
+    eraseP (payload g std now st me) = eraseP (payload g std' now' (eraseP st) me) := by
+  cases me with
+  | airPosBaro a => exact updatePosition_erase g std std' now now' st a
+  | airPosGnss a => exact updatePosition_erase g std std' now now' st a
+  | velocity v =>
+    simp only [payload]
+    cases v.calc <;> (simp [eraseP, eraseC, Option.map_map, List.map_map, Function.comp_def]; rfl)
+  | _ => simp [payload, eraseP, eraseC, Option.map_map, List.map_map, Function.comp_def]; rfl
+
+theorem stepPlane_erase (g : Geo P D) (std std' : Bool) (now now' : Nat) (st : Plane P D) (me : ME) :
+    eraseP (stepPlane g std now st me) = eraseP (stepPlane g std' now' (eraseP st) me) := by
+  rw [stepPlane_eq, stepPlane_eq]
+  exact eraseP_bump _ _ (payload_erase g std std' now now' st me) _ _
+
+theorem eraseP_idem (p : Plane P D) : eraseP (eraseP p) = eraseP p := by
+  simp [eraseP, eraseC, Option.map_map, List.map_map, Function.comp_def]; rfl
+
+theorem eraseS_idem (s : Airplanes P D) : eraseS (eraseS s) = eraseS s := by
+  simp [eraseS, List.map_map, Function.comp_def, eraseP_idem]
+
+/-- **one step**: the alloc-only build's step on the erased state is the erasure of the std build's step; `Added` agrees -/
+theorem action_erase (g : Geo P D) (std std' : Bool) (now now' : Nat) (s : Airplanes P D) (df : DF) :
+    eraseS (action g std now s df).1 = eraseS (action g std' now' (eraseS s) df).1 ∧
+    (action g std now s df).2 = (action g std' now' (eraseS s) df).2 := by
+  cases hk : frameKey df with
+  | none =>
+    rw [other_formats_noop _ _ _ _ _ hk, other_formats_noop _ _ _ _ _ hk]
+    exact ⟨(eraseS_idem s).symm, rfl⟩
+  | some km =>
+    obtain ⟨k, me⟩ := km
+    rw [action_tracked _ _ _ _ _ k me hk, action_tracked _ _ _ _ _ k me hk]
+    simp only [entryOrInsert, get_eraseS]
+    cases hg : s.get k with
+    | none =>
+      simp only [Option.map_none]
+      refine ⟨?_, trivial⟩
+      rw [put_eraseS, put_eraseS, eraseS_idem]
+      congr 1
+      rw [stepPlane_erase g std std' now now' ({ lastTime := now } : Plane P D) me,
+          stepPlane_erase g std' std' now' now' ({ lastTime := now' } : Plane P D) me]
+      rfl
+    | some p =>
+      simp only [Option.map_some]
+      refine ⟨?_, trivial⟩
+      rw [put_eraseS, put_eraseS, eraseS_idem, stepPlane_erase g std std' now now' p me]
+
+/-- the `Added` answers of a history -/
+def runAdded (g : Geo P D) (std : Bool) (s : Airplanes P D) : List (Nat × DF) → List Bool
+  | [] => []
+  | (now, df) :: rest => (action g std now s df).2 :: runAdded g std (action g std now s df).1 rest
+
+/-- **whole histories**: feed the same frames to the std build (clock readings `h`) and to the alloc-only build (which
+has no clock: any readings `h'`), from states that agree up to the time stamps: after every history the two states agree
+up to the time stamps and every `Added` answer is the same -/
+theorem run_erase (g : Geo P D) (std std' : Bool) : ∀ (h h' : List (Nat × DF)) (s s' : Airplanes P D),
+    h.map (·.2) = h'.map (·.2) → eraseS s = eraseS s' →
+    eraseS (run g std s h) = eraseS (run g std' s' h') ∧ runAdded g std s h = runAdded g std' s' h' := by
+  intro h
+  induction h with
+  | nil =>
+    intro h' s s' hf hs
+    cases h' with
+    | nil => exact ⟨hs, rfl⟩
+    | cons _ _ => simp at hf
+  | cons e rest ih =>
+    intro h' s s' hf hs
+    cases h' with
+    | nil => simp at hf
+    | cons e' rest' =>
+      obtain ⟨now, df⟩ := e
+      obtain ⟨now', df'⟩ := e'
+      simp only [List.map_cons, List.cons.injEq] at hf
+      obtain ⟨hdf, hrest⟩ := hf
+      subst hdf
+      have a1 := action_erase g std std' now now' s df
+      have a2 := action_erase g std' std' now' now' s' df
+      rw [hs] at a1
+      have hstate : eraseS (action g std now s df).1 = eraseS (action g std' now' s' df).1 := a1.1.trans a2.1.symm
+      have hadd : (action g std now s df).2 = (action g std' now' s' df).2 := a1.2.trans a2.2.symm
+      obtain ⟨r1, r2⟩ := ih rest' _ _ hrest hstate
+      exact ⟨r1, by simp only [runAdded]; rw [hadd, r2]⟩
+
+/-- what an observer without a clock can see of a state is untouched by the erasure -/
+theorem views_erase (s : Airplanes P D) :
+    (eraseS s).map (·.1) = s.map (·.1) ∧ allPosition (eraseS s) = allPosition s ∧ ∀ k, hasDetails (eraseS s) k = hasDetails s k := by
+  refine ⟨by simp [eraseS, List.map_map, Function.comp_def], ?_, ?_⟩
+  · simp only [allPosition, eraseS, List.filterMap_map]
+    rfl
+  · intro k
+    simp only [hasDetails, get_eraseS]
+    cases s.get k <;> rfl
+
+/-- **C20, tracker half**: the std build and the alloc-only build, fed the same frames from the empty tracker, answer
+`Added` identically and end in states with the same keys, the same published positions and the same details
+availability (and, by `run_erase`, the same records up to the std-only time stamps) -/
+theorem builds_agree (g : Geo P D) (h h' : List (Nat × DF)) (hf : h.map (·.2) = h'.map (·.2)) :
+    runAdded g true [] h = runAdded g false [] h' ∧
+    (run g true [] h).map (·.1) = (run g false [] h').map (·.1) ∧
+    allPosition (run g true [] h) = allPosition (run g false [] h') ∧
+    ∀ k, hasDetails (run g true [] h) k = hasDetails (run g false [] h') k := by
+  obtain ⟨r1, r2⟩ := run_erase g true false h h' [] [] hf rfl
+  obtain ⟨v1, v2, v3⟩ := views_erase (run g true [] h)
+  obtain ⟨w1, w2, w3⟩ := views_erase (run g false [] h')
+  refine ⟨r2, ?_, ?_, ?_⟩
+  · rw [← v1, ← w1, r1]
+  · rw [← v2, ← w2, r1]
+  · intro k; rw [← v3 k, ← w3 k, r1]
+
+/-- each record agrees up to the time stamps -/
+theorem records_agree (g : Geo P D) (h h' : List (Nat × DF)) (hf : h.map (·.2) = h'.map (·.2)) (k : Nat) :
+    ((run g true [] h).get k).map eraseP = ((run g false [] h').get k).map eraseP := by
+  obtain ⟨r1, _⟩ := run_erase g true false h h' [] [] hf rfl
+  rw [← get_eraseS, ← get_eraseS, r1]
+
+/-- non-vacuity: erasure really forgets the clock (two states that differ only in time stamps are identified) -/
+example : eraseP ({ lastTime := 5 } : Plane Nat Nat) = eraseP ({ lastTime := 9 } : Plane Nat Nat) := rfl
 
 end Adsb.C20
